@@ -77,6 +77,8 @@ func specSort(ty string) string {
 		return arrSort(SInt, SReal)
 	case "sarr":
 		return arrSort(SInt, SStr)
+	case "dyn":
+		return SDyn
 	case "arr2":
 		return arrSort(SInt, arrSort(SInt, SInt))
 	}
@@ -583,6 +585,45 @@ func (e *SpecEnv) call(n *SCall) Val {
 			e.fail("seen() outside a map-range loop")
 		}
 		return scBool(tSel(s.(Sc).T, encodeKey(e.eval(n.Args[0]))))
+	case "boxbyte", "boxint", "boxfloat", "boxstr", "boxbytes":
+		// the interface value holding a byte / int / float64 / string / []byte
+		e.c().used["dyn!"] = true
+		switch n.Fn {
+		case "boxbyte":
+			return Sc{app("box!i", "1", e.evalInt(n.Args[0])), SDyn}
+		case "boxint":
+			return Sc{app("box!i", "2", e.evalInt(n.Args[0])), SDyn}
+		case "boxfloat":
+			return Sc{app("box!r", "3", toReal(e.eval(n.Args[0]).(Sc))), SDyn}
+		case "boxstr":
+			e.c().usesStr = true
+			return Sc{app("box!s", "4", e.eval(n.Args[0]).(Sc).T), SDyn}
+		}
+		return Sc{app("box!b", "5", e.rawArr(e.eval(n.Args[0])).(Sc).T, e.evalInt(n.Args[1])), SDyn}
+	case "substr":
+		// substr(s, lo, hi) = s[lo:hi]
+		e.c().usesStr = true
+		e.c().used["str!sub"] = true
+		return Sc{app("str!sub", e.eval(n.Args[0]).(Sc).T, e.evalInt(n.Args[1]), e.evalInt(n.Args[2])), SStr}
+	case "dynbyte", "dynint", "dynfloat", "dynstr", "dynbytes":
+		// dynamic type of an interface value (the five types the repository stores in `any`)
+		code := map[string]string{"dynbyte": "1", "dynint": "2", "dynfloat": "3", "dynstr": "4", "dynbytes": "5"}[n.Fn]
+		tok := e.eval(n.Args[0]).(Sc).T
+		e.c().used["dyn!"] = true
+		return scBool(tAnd(tNot(tEq(tok, "dyn!nil")), tEq(app("dyn!ty", tok), code)))
+	case "asint", "asreal", "asstr", "asbytes":
+		tok := e.eval(n.Args[0]).(Sc).T
+		e.c().used["dyn!"] = true
+		switch n.Fn {
+		case "asint":
+			return scInt(app("dyn!i", tok))
+		case "asreal":
+			return Sc{app("dyn!r", tok), SReal}
+		case "asstr":
+			e.c().usesStr = true
+			return Sc{app("dyn!s", tok), SStr}
+		}
+		return Sl{Sc{app("dyn!ba", tok), arrSort(SInt, SInt)}, "0", app("dyn!bl", tok), tFalse, types.Typ[types.Uint8]}
 	case "min", "max":
 		a, b := e.eval(n.Args[0]).(Sc), e.eval(n.Args[1]).(Sc)
 		if n.Fn == "min" {
